@@ -23,7 +23,10 @@ vertices, mid-points of vertex pairs, on vertices / edges / box border, within a
 an edge, half-integer lattice points; default and other tolerances, pre-filled answer vectors, integer-typed
 vertex arrays, nprint > 0, point sets of 1000-4097 points; grids 1..12 x 1..12 (now and then up to 45 x 45) with
 polygons aligned to cell corners / centres or placed freely (inside, overlapping, covering, beyond the grid);
-a malformed stream (empty polygon, answer vector of the wrong length, no points).
+state histories on ONE Grid object and its clones (corpus/C15/history.json first, then random): 2-4 queries with
+re-assignment of xllcorner / yllcorner / cellsize or clone()+re-assignment in between, grid and polygon translated
+together, legitimate reuse with another polygon - every query judged (model and oracle) on the geometry the
+object has at that moment; a malformed stream (empty polygon, answer vector of the wrong length, no points).
 A case is non-trivial when the polygon has >= 3 vertices and the code answers 1 for some points and 0 for others.
 """
 import json
@@ -517,15 +520,10 @@ def body(ctx):
         ctx.count(("malformed", kind, repr(poly), repr(pts)), False, "malformed:" + kind)
 
     # ---------------------------------------------------------------- cells_inside_polygon
-    for ig in range(ctx.scale(250, 4000)):
-        ncols, nrows = rng.randint(1, 12), rng.randint(1, 12)
-        if ig % 50 == 7:
-            ncols, nrows = rng.randint(25, 45), rng.randint(25, 45)      # a mid-size grid now and then
-        csz = rng.choice([1.0, 0.5, 2.0, 0.25, 0.1, 30.0, 1.0])
-        xll = rng.choice([0.0, -3.0, 0.5, 100.0, 0.3]) * csz
-        yll = rng.choice([0.0, 2.0, -0.5, 1e3, 0.7]) * csz
-        fam, poly, closed = gen_polygon(rng, ctx.scale(10, 20))
-        # bring the polygon over the grid: map its box to a box overlapping the grid extent
+    def place_polygon(geom, nmax_):
+        """a polygon of a random family brought over the grid of geometry (nrows, ncols, xll, yll, csz)"""
+        nrows, ncols, xll, yll, csz = geom
+        fam, poly, _closed = gen_polygon(rng, nmax_)
         xs = [p[0] for p in poly]
         ys = [p[1] for p in poly]
         w = max(max(xs) - min(xs), max(ys) - min(ys)) or 1.0
@@ -541,8 +539,12 @@ def body(ctx):
             ox = xll + rng.uniform(-0.2, 0.3) * ncols * csz
             oy = yll + rng.uniform(-0.2, 0.3) * nrows * csz
             poly = [(ox + (x - min(xs)) * f, oy + (y - min(ys)) * f) for x, y in poly]
-        gr = Grid("g", ncols, nrows, csz, xll, yll)
-        user_atol = rng.choice([None, None, 1e-8, 0.5, 10.0])     # not forwarded by the code
+        return fam, kind, poly
+
+    def query_cells(gr, geom, poly, fam, kind, user_atol, tag, extra):
+        """one call of cells_inside_polygon on the Grid object `gr` whose CURRENT geometry is `geom`:
+        correspondence request (model evaluated on the current geometry) + independent oracle"""
+        nrows, ncols, xll, yll, csz = geom
         pa = np.array(poly, dtype=np.float64).reshape(-1, 2)
         try:
             df = gr.cells_inside_polygon(pa) if user_atol is None else gr.cells_inside_polygon(pa, atol=user_atol)
@@ -551,22 +553,24 @@ def body(ctx):
         except Exception as e:  # noqa
             df, cells = None, None
             impl = f"err other:{type(e).__name__}"
-        case = {"grid": [nrows, ncols, xll, yll, csz], "polygon": poly, "family": fam, "atol_argument": user_atol}
+        case = {"grid": [nrows, ncols, xll, yll, csz], "polygon": poly, "family": fam, "atol_argument": user_atol, **extra}
         add(f"cells {nrows} {ncols} {C.f2h(xll)} {C.f2h(yll)} {C.f2h(csz)} {C.f2h(ATOL)} {C.fmat(poly)}", impl, case)
-        ctx.count(("cells", nrows, ncols, xll, yll, csz, repr(poly)),
+        ctx.count(("cells", tag, nrows, ncols, xll, yll, csz, repr(poly), repr(extra)),
                   cells is not None and 0 < len(cells) < nrows * ncols, "cells:" + kind,
                   sample={"grid": [nrows, ncols, xll, yll, csz], "polygon": poly[:6], "cells": (cells or [])[:10]})
         if cells is None:
-            continue
+            return
         # oracle: listed once, in range, coordinates are the centres, and (far centres) listed <=> inside
         ncell = nrows * ncols
         if len(set(cells)) != len(cells) or any(c < 0 or c >= ncell for c in cells):
-            ctx.finding("cells_inside_polygon/not_a_set_of_cells", "cell list has repeats or cells outside the grid", case)
+            ctx.finding(f"{tag}/not_a_set_of_cells", "cell list has repeats or cells outside the grid", case)
+            return
         centres = [(xll + csz * ((c % ncols) + 0.5), yll + csz * ((nrows - 1 - c // ncols) + 0.5)) for c in range(ncell)]
         for x, y, c in zip(df["x"].values, df["y"].values, cells):
             if (float(x), float(y)) != centres[c]:
-                ctx.finding("cells_inside_polygon/xy_not_centre", "x, y of a listed cell are not its centre",
+                ctx.finding(f"{tag}/xy_not_centre", "x, y of a listed cell are not its centre (current grid geometry)",
                             {**case, "cell": c, "xy": [float(x), float(y)], "centre": centres[c]})
+                break
         # the oracle judges only calls made with the documented tolerance (the property's quantifier: coordinates
         # differ by much more than the absolute tolerance 1e-8); a caller-supplied larger atol is compared with the
         # model (correspondence) but is not a violation whatever the code does with it
@@ -583,9 +587,134 @@ def body(ctx):
                         continue
                     ctx.hist["oracle_cells_judged"] = ctx.hist.get("oracle_cells_judged", 0) + 1
                     if (c in listed) != bool(want):
-                        ctx.finding("cells_inside_polygon/far_centre/differs_from_even_odd",
+                        ctx.finding(f"{tag}/far_centre/differs_from_even_odd",
                                     "a cell whose centre is farther than 1e-6 x size from every edge is listed although its centre is outside, or missing although inside",
                                     {**case, "cell": c, "centre": centres[c], "listed": c in listed, "even_odd": want})
+
+    CSZS = [1.0, 0.5, 2.0, 0.25, 0.1, 30.0, 1.0]
+    XLLS = [0.0, -3.0, 0.5, 100.0, 0.3]
+    YLLS = [0.0, 2.0, -0.5, 1e3, 0.7]
+
+    # (a) one query on a freshly built grid
+    for ig in range(ctx.scale(250, 4000)):
+        ncols, nrows = rng.randint(1, 12), rng.randint(1, 12)
+        if ig % 50 == 7:
+            ncols, nrows = rng.randint(25, 45), rng.randint(25, 45)      # a mid-size grid now and then
+        csz = rng.choice(CSZS)
+        xll = rng.choice(XLLS) * csz
+        yll = rng.choice(YLLS) * csz
+        geom = (nrows, ncols, xll, yll, csz)
+        fam, kind, poly = place_polygon(geom, ctx.scale(10, 20))
+        gr = Grid("g", ncols, nrows, csz, xll, yll)
+        user_atol = rng.choice([None, None, 1e-8, 0.5, 10.0])     # not forwarded by the code
+        query_cells(gr, geom, poly, fam, kind, user_atol, "cells_inside_polygon", {})
+
+    # (b) histories on ONE Grid object and its clones: query, re-assign the public geometry attributes
+    # (xllcorner / yllcorner / cellsize, as the library's own tests do) or clone (a deepcopy) and re-assign, query
+    # again ... every answer is judged against the geometry the object has AT THAT MOMENT.
+    # A history is (grid0, steps); steps refer to objects by index (0 = the grid built first, clones appended):
+    #   {"op": "query", "on": i, "polygon": [...]}   {"op": "set", "on": i, "attrs": {...}}   {"op": "clone", "of": i}
+    def run_history(grid0, steps, label):
+        nrows, ncols, xll, yll, csz = grid0
+        objs = [Grid("g", ncols, nrows, csz, xll, yll)]
+        geoms = [tuple(grid0)]
+        done = []
+        last = ["fresh"]
+        for st in steps:
+            done.append(st)
+            if st["op"] == "clone":
+                objs.append(objs[st["of"]].clone())
+                geoms.append(geoms[st["of"]])
+                last.append("clone")
+            elif st["op"] == "set":
+                i = st["on"]
+                g = list(geoms[i])
+                for k, v in st["attrs"].items():
+                    setattr(objs[i], k, v)
+                    g[{"xllcorner": 2, "yllcorner": 3, "cellsize": 4}[k]] = float(v)
+                geoms[i] = tuple(g)
+                last[i] = ("clone+" if last[i].startswith("clone") else "") + "set_" + "_".join(sorted(st["attrs"]))
+            else:
+                i = st["on"]
+                poly = [tuple(map(float, p)) for p in st["polygon"]]
+                nq_before = sum(1 for d in done[:-1] if d["op"] == "query")
+                tag = "cells_inside_polygon" if nq_before == 0 else "cells_inside_polygon/history/after_" + last[i]
+                query_cells(objs[i], geoms[i], poly, st.get("family", label), st.get("kind", "history"), None, tag,
+                            {"grid0": list(grid0), "history": [dict(d) for d in done]})
+                ctx.hist["history:" + last[i]] = ctx.hist.get("history:" + last[i], 0) + 1
+                last[i] = "query"
+
+    def gen_history():
+        ncols, nrows = rng.randint(1, 10), rng.randint(1, 10)
+        csz = rng.choice(CSZS)
+        grid0 = (nrows, ncols, rng.choice(XLLS) * csz, rng.choice(YLLS) * csz, csz)
+        geoms = [grid0]
+        polys = [None]
+        steps = []
+        nmax_ = ctx.scale(10, 16)
+
+        def query(i, poly=None):
+            if poly is None:
+                fam, kind, poly = place_polygon(geoms[i], nmax_)
+            else:
+                fam, kind = "translated", "history"
+            polys[i] = poly
+            steps.append({"op": "query", "on": i, "polygon": [list(p) for p in poly], "family": fam, "kind": kind})
+
+        query(0)
+        for _ in range(rng.randint(1, 3)):
+            i = rng.randrange(len(geoms))
+            act = rng.choice(["set", "set", "clone_set", "clone_set", "together", "clone_together", "same", "clone_same"])
+            if act.startswith("clone"):
+                steps.append({"op": "clone", "of": i})
+                geoms.append(geoms[i])
+                polys.append(polys[i])
+                if rng.random() < 0.3 and polys[i] is not None:
+                    query(i)                         # the original keeps working after having been cloned
+                i = len(geoms) - 1
+            nr, nc, xll, yll, csz = geoms[i]
+            if act.endswith("same"):
+                query(i)                             # legitimate reuse: same geometry, another polygon
+                continue
+            if act.endswith("together") and polys[i] is not None:
+                # grid and polygon translated together: same cells expected
+                dx = rng.choice([130.0, -7.0, 0.5, 2.0, 1e3, 0.0]) * csz
+                dy = rng.choice([-20.0, 3.0, 0.25, 0.0, -1e3]) * csz
+                if dx == 0.0 and dy == 0.0:
+                    dx = 5.0 * csz
+                attrs = {}
+                if dx != 0.0:
+                    attrs["xllcorner"] = xll + dx
+                if dy != 0.0:
+                    attrs["yllcorner"] = yll + dy
+                steps.append({"op": "set", "on": i, "attrs": attrs})
+                geoms[i] = (nr, nc, xll + dx, yll + dy, csz)
+                query(i, [(x + dx, y + dy) for x, y in polys[i]])
+                continue
+            attrs = {}
+            which = rng.choice(["x", "y", "xy", "c", "xyc", "c"])
+            if "x" in which:
+                attrs["xllcorner"] = rng.choice([v * csz for v in XLLS if v * csz != xll] + [xll + 0.5 * csz, xll + nc * csz])
+            if "y" in which:
+                attrs["yllcorner"] = rng.choice([v * csz for v in YLLS if v * csz != yll] + [yll - 0.5 * csz, yll + nr * csz])
+            if "c" in which:
+                attrs["cellsize"] = rng.choice([v for v in CSZS if v != csz])
+            steps.append({"op": "set", "on": i, "attrs": attrs})
+            geoms[i] = (nr, nc, attrs.get("xllcorner", xll), attrs.get("yllcorner", yll), attrs.get("cellsize", csz))
+            if rng.random() < 0.5 and polys[i] is not None:
+                query(i, polys[i])                   # the old polygon against the new geometry
+            else:
+                query(i)
+        return grid0, steps
+
+    hdir = C.ROOT / "corpus" / PID
+    if hdir.is_dir():
+        for f in sorted(hdir.glob("*.json")):
+            for ent in json.loads(f.read_text()).get("histories", []):
+                run_history(tuple(ent["grid0"]), ent["steps"], "corpus:" + f.stem)
+    for _ in range(ctx.scale(150, 2000)):
+        grid0, steps = gen_history()
+        run_history(grid0, steps, "history")
 
     # ---------------------------------------------------------------- correspondence
     replies = lean.ask(reqs)
